@@ -919,6 +919,13 @@ func c06OutType(r *fw.Run, p *fw.Program) {
 				ru.Except(key, p.Rel(pn.Pos()), "asserted value does not come directly from a sub-format decode call in this function (internal plumbing of out values)")
 				return
 			}
+			// only the decode API functions that fail (d.IOPanic / d.Fatalf) when no format of the group decodes
+			// hand back the decoded format's out value on every return; the Try* and *OrRaw variants return a
+			// nil out value for input the group rejects, and the assertion's panic is then reachable by input
+			if cn := call.Common().StaticCallee().Name(); (strings.HasPrefix(cn, "Try") || strings.Contains(cn, "OrRaw")) && !c06OutNonNilGuard(pn.Block(), call, ta.X, strings.Contains(cn, "OrRaw")) {
+				ru.Fail(key, p.Rel(pn.Pos()), "the out value asserted to "+shortType(ta.AssertedType)+" comes from (*decode.D)."+cn+", which returns a nil out value when no format of the group decodes the input: the panic after the failed assertion is an unrecoverable crash on malformed input (use the failing variant, or handle !ok without panicking)")
+				return
+			}
 			var groupObj types.Object
 			for _, a := range call.Common().Args {
 				if g, ok := a.(*ssa.Global); ok && strings.HasSuffix(types.TypeString(g.Type(), nil), "pkg/decode.Group") {
@@ -973,6 +980,42 @@ func asFunc(o types.Object) *types.Func {
 }
 
 // decodeCallOf finds the decode.D call whose (extracted) result v is.
+// c06OutNonNilGuard: at block b a result of the sub-format decode call is known non-nil: the asserted out
+// value itself, or (not for the OrRaw variants, whose value pointer is also set for the raw fallback) the
+// *decode.Value result, which the Try variants return as nil exactly on failure.
+func c06OutNonNilGuard(b *ssa.BasicBlock, call *ssa.Call, asserted ssa.Value, onlyOut bool) bool {
+	for _, g := range fw.Guards(b) {
+		g = g.Normalize()
+		bo, ok := g.Cond.(*ssa.BinOp)
+		if !ok || (bo.Op != token.EQL && bo.Op != token.NEQ) {
+			continue
+		}
+		var v ssa.Value
+		if isNilConst(bo.Y) {
+			v = bo.X
+		} else if isNilConst(bo.X) {
+			v = bo.Y
+		} else {
+			continue
+		}
+		if (bo.Op == token.NEQ) != g.True {
+			continue
+		}
+		if v == asserted {
+			return true
+		}
+		if ex, ok := v.(*ssa.Extract); ok && ex.Tuple == ssa.Value(call) {
+			if ax, ok := asserted.(*ssa.Extract); ok && ax.Index == ex.Index {
+				return true
+			}
+			if !onlyOut && ex.Index == 0 {
+				return true
+			}
+		}
+	}
+	return false
+}
+
 func decodeCallOf(v ssa.Value, depth int) *ssa.Call {
 	if depth > 6 {
 		return nil
